@@ -78,7 +78,7 @@ pub fn base_weights(prop: &str) -> Vec<u32> {
         "C11" => {
             set(stat);
             set(refresh);
-            set(&[(Rekey, 3), (Reload, 2), (Recaps, 1)]);
+            set(&[(Rekey, 4), (Reload, 2), (Recaps, 1), (DisableAttr, 2), (Update, 3), (Prune, 1), (AddAttr, 1), (DelAttr, 1)]);
         }
         "C03" => {
             set(stat);
@@ -739,7 +739,8 @@ impl Gen {
     pub fn usk_op(&mut self, rng: &mut Rng, w: &World, user: usize) -> UskOp {
         let n_rights = w.users[user].usk.as_ref().map(|(_, m)| m.rights.len()).unwrap_or(1).max(1);
         let other = rng.below(w.users.len());
-        match rng.below(24) {
+        match rng.below(26) {
+            24 | 25 => UskOp::SplitChain { i: rng.below(n_rights), k: rng.below(3) },
             0 | 1 => UskOp::MergeAdjacent { i: rng.below(n_rights) },
             2 => UskOp::SplitName { i: rng.below(n_rights), k: rng.range(1, 3) },
             3 => UskOp::MoveSecret { from: rng.below(n_rights), to: rng.below(n_rights) },
